@@ -810,111 +810,108 @@ pub(crate) mod verif_c01 {
     // ---- E. the entry-point macro impl_deserialize_body! instantiated on the scripted inner deserializer ----------
     // (the four Conjure deserializers are exactly this macro applied to serde_json's / serde_smile's deserializer
     // with their behaviour; the obligations hold for the macro text, whatever the inner type)
-    pub mod entry {
-        use super::*;
 
-        pub struct SrcM;
-        macro_rules! fwd {
-            ($($method:ident,)*) => {
-                $(fn $method<V: Visitor<'de>>(self, v: V) -> Result<V::Value, E> { Src(0).$method(v) })*
-            };
+    pub struct SrcM;
+    macro_rules! fwd {
+        ($($method:ident,)*) => {
+            $(fn $method<V: Visitor<'de>>(self, v: V) -> Result<V::Value, E> { Src(0).$method(v) })*
+        };
+    }
+    impl<'a, 'de> Deserializer<'de> for &'a mut SrcM {
+        type Error = E;
+        fwd! {
+            deserialize_any, deserialize_bool, deserialize_i8, deserialize_i16, deserialize_i32, deserialize_i64, deserialize_i128,
+            deserialize_u8, deserialize_u16, deserialize_u32, deserialize_u64, deserialize_u128, deserialize_f32, deserialize_f64,
+            deserialize_char, deserialize_str, deserialize_string, deserialize_bytes, deserialize_byte_buf, deserialize_option,
+            deserialize_unit, deserialize_seq, deserialize_map, deserialize_identifier, deserialize_ignored_any,
         }
-        impl<'a, 'de> Deserializer<'de> for &'a mut SrcM {
-            type Error = E;
-            fwd! {
-                deserialize_any, deserialize_bool, deserialize_i8, deserialize_i16, deserialize_i32, deserialize_i64, deserialize_i128,
-                deserialize_u8, deserialize_u16, deserialize_u32, deserialize_u64, deserialize_u128, deserialize_f32, deserialize_f64,
-                deserialize_char, deserialize_str, deserialize_string, deserialize_bytes, deserialize_byte_buf, deserialize_option,
-                deserialize_unit, deserialize_seq, deserialize_map, deserialize_identifier, deserialize_ignored_any,
+        fn deserialize_unit_struct<V: Visitor<'de>>(self, n: &'static str, v: V) -> Result<V::Value, E> { Src(0).deserialize_unit_struct(n, v) }
+        fn deserialize_newtype_struct<V: Visitor<'de>>(self, n: &'static str, v: V) -> Result<V::Value, E> { Src(0).deserialize_newtype_struct(n, v) }
+        fn deserialize_tuple<V: Visitor<'de>>(self, len: usize, v: V) -> Result<V::Value, E> { Src(0).deserialize_tuple(len, v) }
+        fn deserialize_tuple_struct<V: Visitor<'de>>(self, n: &'static str, len: usize, v: V) -> Result<V::Value, E> { Src(0).deserialize_tuple_struct(n, len, v) }
+        fn deserialize_struct<V: Visitor<'de>>(self, n: &'static str, f: &'static [&'static str], v: V) -> Result<V::Value, E> { Src(0).deserialize_struct(n, f, v) }
+        fn deserialize_enum<V: Visitor<'de>>(self, n: &'static str, f: &'static [&'static str], v: V) -> Result<V::Value, E> { Src(0).deserialize_enum(n, f, v) }
+    }
+
+    pub struct EntryD(pub SrcM);
+    impl<'a, 'de> de::Deserializer<'de> for &'a mut EntryD {
+        impl_deserialize_body!(&'a mut SrcM, VB);
+    }
+
+    macro_rules! entry_delegate {
+        ($name:ident, $method:ident, $id:ident) => {
+            #[kani::proof]
+            fn $name() {
+                let mut e = EntryD(SrcM);
+                script(Reply::Some_, Reply::Natural);
+                assert!(de::Deserializer::$method(&mut e, UV).is_ok());
+                assert!(n() == 5 && at(0) == Ev::M($id, 0, 0) && at(1) == Ev::VSome && value_probe_at(2));
+                kani::cover!(true);
             }
-            fn deserialize_unit_struct<V: Visitor<'de>>(self, n: &'static str, v: V) -> Result<V::Value, E> { Src(0).deserialize_unit_struct(n, v) }
-            fn deserialize_newtype_struct<V: Visitor<'de>>(self, n: &'static str, v: V) -> Result<V::Value, E> { Src(0).deserialize_newtype_struct(n, v) }
-            fn deserialize_tuple<V: Visitor<'de>>(self, len: usize, v: V) -> Result<V::Value, E> { Src(0).deserialize_tuple(len, v) }
-            fn deserialize_tuple_struct<V: Visitor<'de>>(self, n: &'static str, len: usize, v: V) -> Result<V::Value, E> { Src(0).deserialize_tuple_struct(n, len, v) }
-            fn deserialize_struct<V: Visitor<'de>>(self, n: &'static str, f: &'static [&'static str], v: V) -> Result<V::Value, E> { Src(0).deserialize_struct(n, f, v) }
-            fn deserialize_enum<V: Visitor<'de>>(self, n: &'static str, f: &'static [&'static str], v: V) -> Result<V::Value, E> { Src(0).deserialize_enum(n, f, v) }
-        }
+        };
+    }
+    entry_delegate!(entry_any, deserialize_any, ANY);
+    entry_delegate!(entry_i8, deserialize_i8, I8);
+    entry_delegate!(entry_i16, deserialize_i16, I16);
+    entry_delegate!(entry_i32, deserialize_i32, I32);
+    entry_delegate!(entry_i64, deserialize_i64, I64);
+    entry_delegate!(entry_i128, deserialize_i128, I128);
+    entry_delegate!(entry_u8, deserialize_u8, U8);
+    entry_delegate!(entry_u16, deserialize_u16, U16);
+    entry_delegate!(entry_u32, deserialize_u32, U32);
+    entry_delegate!(entry_u64, deserialize_u64, U64);
+    entry_delegate!(entry_u128, deserialize_u128, U128);
+    entry_delegate!(entry_char, deserialize_char, CHAR);
+    entry_delegate!(entry_str, deserialize_str, STR);
+    entry_delegate!(entry_string, deserialize_string, STRING);
+    entry_delegate!(entry_option, deserialize_option, OPTION);
+    entry_delegate!(entry_unit, deserialize_unit, UNIT);
+    entry_delegate!(entry_seq, deserialize_seq, SEQ);
+    entry_delegate!(entry_map, deserialize_map, MAP);
+    entry_delegate!(entry_identifier, deserialize_identifier, IDENTIFIER);
+    entry_delegate!(entry_ignored_any, deserialize_ignored_any, IGNORED_ANY);
 
-        pub struct EntryD(pub SrcM);
-        impl<'a, 'de> de::Deserializer<'de> for &'a mut EntryD {
-            impl_deserialize_body!(&'a mut SrcM, VB);
-        }
+    macro_rules! entry_behavior {
+        ($name:ident, $method:ident, $id:ident) => {
+            #[kani::proof]
+            fn $name() {
+                let mut e = EntryD(SrcM);
+                script(Reply::Some_, Reply::Natural);
+                assert!(de::Deserializer::$method(&mut e, UV).is_ok());
+                assert!(n() == 6 && at(0) == Ev::Hook($id) && at(1) == Ev::M($id, 0, 0) && at(2) == Ev::VSome && value_probe_at(3));
+                kani::cover!(true);
+            }
+        };
+    }
+    entry_behavior!(entry_bool, deserialize_bool, BOOL);
+    entry_behavior!(entry_f32, deserialize_f32, F32);
+    entry_behavior!(entry_f64, deserialize_f64, F64);
+    entry_behavior!(entry_bytes, deserialize_bytes, BYTES);
+    entry_behavior!(entry_byte_buf, deserialize_byte_buf, BYTE_BUF);
 
-        macro_rules! entry_delegate {
-            ($name:ident, $method:ident, $id:ident) => {
-                #[kani::proof]
-                fn $name() {
-                    let mut e = EntryD(SrcM);
-                    script(Reply::Some_, Reply::Natural);
-                    assert!(de::Deserializer::$method(&mut e, UV).is_ok());
-                    assert!(n() == 5 && at(0) == Ev::M($id, 0, 0) && at(1) == Ev::VSome && value_probe_at(2));
-                    kani::cover!(true);
-                }
-            };
-        }
-        entry_delegate!(entry_any, deserialize_any, ANY);
-        entry_delegate!(entry_i8, deserialize_i8, I8);
-        entry_delegate!(entry_i16, deserialize_i16, I16);
-        entry_delegate!(entry_i32, deserialize_i32, I32);
-        entry_delegate!(entry_i64, deserialize_i64, I64);
-        entry_delegate!(entry_i128, deserialize_i128, I128);
-        entry_delegate!(entry_u8, deserialize_u8, U8);
-        entry_delegate!(entry_u16, deserialize_u16, U16);
-        entry_delegate!(entry_u32, deserialize_u32, U32);
-        entry_delegate!(entry_u64, deserialize_u64, U64);
-        entry_delegate!(entry_u128, deserialize_u128, U128);
-        entry_delegate!(entry_char, deserialize_char, CHAR);
-        entry_delegate!(entry_str, deserialize_str, STR);
-        entry_delegate!(entry_string, deserialize_string, STRING);
-        entry_delegate!(entry_option, deserialize_option, OPTION);
-        entry_delegate!(entry_unit, deserialize_unit, UNIT);
-        entry_delegate!(entry_seq, deserialize_seq, SEQ);
-        entry_delegate!(entry_map, deserialize_map, MAP);
-        entry_delegate!(entry_identifier, deserialize_identifier, IDENTIFIER);
-        entry_delegate!(entry_ignored_any, deserialize_ignored_any, IGNORED_ANY);
-
-        macro_rules! entry_behavior {
-            ($name:ident, $method:ident, $id:ident) => {
-                #[kani::proof]
-                fn $name() {
-                    let mut e = EntryD(SrcM);
-                    script(Reply::Some_, Reply::Natural);
-                    assert!(de::Deserializer::$method(&mut e, UV).is_ok());
-                    assert!(n() == 6 && at(0) == Ev::Hook($id) && at(1) == Ev::M($id, 0, 0) && at(2) == Ev::VSome && value_probe_at(3));
-                    kani::cover!(true);
-                }
-            };
-        }
-        entry_behavior!(entry_bool, deserialize_bool, BOOL);
-        entry_behavior!(entry_f32, deserialize_f32, F32);
-        entry_behavior!(entry_f64, deserialize_f64, F64);
-        entry_behavior!(entry_bytes, deserialize_bytes, BYTES);
-        entry_behavior!(entry_byte_buf, deserialize_byte_buf, BYTE_BUF);
-
-        #[kani::proof]
-        fn entry_named_methods() {
-            let mut e = EntryD(SrcM);
-            let len: usize = kani::any();
-            script(Reply::Some_, Reply::Natural);
-            assert!(de::Deserializer::deserialize_unit_struct(&mut e, "Nm", UV).is_ok());
-            assert!(n() == 5 && at(0) == Ev::M(UNIT_STRUCT, 2, 0) && at(1) == Ev::VSome && value_probe_at(2));
-            script(Reply::Some_, Reply::Natural);
-            assert!(de::Deserializer::deserialize_newtype_struct(&mut e, "Nm", UV).is_ok());
-            assert!(n() == 5 && at(0) == Ev::M(NEWTYPE_STRUCT, 2, 0) && at(1) == Ev::VSome && value_probe_at(2));
-            script(Reply::Some_, Reply::Natural);
-            assert!(de::Deserializer::deserialize_tuple(&mut e, len, UV).is_ok());
-            assert!(n() == 5 && at(0) == Ev::M(TUPLE, len, 0) && at(1) == Ev::VSome && value_probe_at(2));
-            script(Reply::Some_, Reply::Natural);
-            assert!(de::Deserializer::deserialize_tuple_struct(&mut e, "Nm", len, UV).is_ok());
-            assert!(n() == 5 && at(0) == Ev::M(TUPLE_STRUCT, 2, len) && at(1) == Ev::VSome && value_probe_at(2));
-            script(Reply::Some_, Reply::Natural);
-            assert!(de::Deserializer::deserialize_enum(&mut e, "Nm", &FIELDS, UV).is_ok());
-            assert!(n() == 5 && at(0) == Ev::M(ENUM, 2, 3) && at(1) == Ev::VSome && value_probe_at(2));
-            // objects go through the behaviour's struct hook: this is where the server behaviour intercepts
-            script(Reply::Some_, Reply::Natural);
-            assert!(de::Deserializer::deserialize_struct(&mut e, "Nm", &FIELDS, UV).is_ok());
-            assert!(n() == 6 && at(0) == Ev::HookStruct(2, 3) && at(1) == Ev::M(STRUCT, 2, 3) && at(2) == Ev::VSome && value_probe_at(3));
-            kani::cover!(true);
-        }
+    #[kani::proof]
+    fn entry_named_methods() {
+        let mut e = EntryD(SrcM);
+        let len: usize = kani::any();
+        script(Reply::Some_, Reply::Natural);
+        assert!(de::Deserializer::deserialize_unit_struct(&mut e, "Nm", UV).is_ok());
+        assert!(n() == 5 && at(0) == Ev::M(UNIT_STRUCT, 2, 0) && at(1) == Ev::VSome && value_probe_at(2));
+        script(Reply::Some_, Reply::Natural);
+        assert!(de::Deserializer::deserialize_newtype_struct(&mut e, "Nm", UV).is_ok());
+        assert!(n() == 5 && at(0) == Ev::M(NEWTYPE_STRUCT, 2, 0) && at(1) == Ev::VSome && value_probe_at(2));
+        script(Reply::Some_, Reply::Natural);
+        assert!(de::Deserializer::deserialize_tuple(&mut e, len, UV).is_ok());
+        assert!(n() == 5 && at(0) == Ev::M(TUPLE, len, 0) && at(1) == Ev::VSome && value_probe_at(2));
+        script(Reply::Some_, Reply::Natural);
+        assert!(de::Deserializer::deserialize_tuple_struct(&mut e, "Nm", len, UV).is_ok());
+        assert!(n() == 5 && at(0) == Ev::M(TUPLE_STRUCT, 2, len) && at(1) == Ev::VSome && value_probe_at(2));
+        script(Reply::Some_, Reply::Natural);
+        assert!(de::Deserializer::deserialize_enum(&mut e, "Nm", &FIELDS, UV).is_ok());
+        assert!(n() == 5 && at(0) == Ev::M(ENUM, 2, 3) && at(1) == Ev::VSome && value_probe_at(2));
+        // objects go through the behaviour's struct hook: this is where the server behaviour intercepts
+        script(Reply::Some_, Reply::Natural);
+        assert!(de::Deserializer::deserialize_struct(&mut e, "Nm", &FIELDS, UV).is_ok());
+        assert!(n() == 6 && at(0) == Ev::HookStruct(2, 3) && at(1) == Ev::M(STRUCT, 2, 3) && at(2) == Ev::VSome && value_probe_at(3));
+        kani::cover!(true);
     }
 }
